@@ -144,7 +144,7 @@ impl Check for C32 {
     fn cases(&self, tier: Tier) -> u64 {
         match tier {
             Tier::Quick => 100_000,
-            Tier::Thorough => 3_000_000,
+            Tier::Thorough => 2_000_000,
         }
     }
     fn tape_len(&self, _t: Tier) -> usize {
